@@ -23,9 +23,9 @@ if ! cargo build --offline --workspace -q 2>/tmp/evalwt${SLOT:-}-build.log; then
 SUITE=$(cargo test --offline --workspace --no-fail-fast 2>&1 | grep -E "^test result" | awk '{p+=$4; f+=$6} END {print p" passed "f" failed"}')
 res "A2 repository suite with the change: $SUITE"
 mkdir -p "$(dirname "$DPATH")"; cp "$DEMO" "$DPATH"
-if cargo test --offline -q -p "$CRATE" --test "$TESTNAME" >/tmp/evalwt${SLOT:-}-demo1.log 2>&1; then res "A3 demo with the change: PASSES (change not demonstrated)"; DEMO_FAILS=0; else res "A3 demo with the change: fails (as claimed)"; DEMO_FAILS=1; fi
+if cargo test --offline -q ${DEMO_FLAGS:-} -p "$CRATE" --test "$TESTNAME" >/tmp/evalwt${SLOT:-}-demo1.log 2>&1; then res "A3 demo with the change: PASSES (change not demonstrated)"; DEMO_FAILS=0; else res "A3 demo with the change: fails (as claimed)"; DEMO_FAILS=1; fi
 git apply -R "$PATCH"
-if cargo test --offline -q -p "$CRATE" --test "$TESTNAME" >/tmp/evalwt${SLOT:-}-demo2.log 2>&1; then res "A4 demo without the change: passes (as claimed)"; DEMO_OK=1; else res "A4 demo without the change: FAILS"; DEMO_OK=0; fi
+if cargo test --offline -q ${DEMO_FLAGS:-} -p "$CRATE" --test "$TESTNAME" >/tmp/evalwt${SLOT:-}-demo2.log 2>&1; then res "A4 demo without the change: passes (as claimed)"; DEMO_OK=1; else res "A4 demo without the change: FAILS"; DEMO_OK=0; fi
 rm -f "$DPATH"; git checkout -q -- .; git clean -qfd rlib 2>/dev/null
 echo "  SUMMARY-A suite=[$SUITE] demo_fails_with=$DEMO_FAILS demo_passes_without=$DEMO_OK"
 fi
